@@ -334,6 +334,18 @@ impl<'a, C: Crypto> CaseResponder<'a, C> {
                         return Ok(SCStatusCodes::InvalidParameter);
                     }
                 };
+                // All bytes of Sigma3 go into the transcript hash the session keys are derived
+                // from, but nothing in the handshake authenticates bytes trailing its TLV
+                // structure: accepting them would leave us with a session whose keys differ
+                // from those of the initiator, which hashed what it sent.
+                let payload = exchange.rx()?.payload();
+                if !matches!(
+                    crate::tlv::TLVSequence(payload).container_len(),
+                    Ok(len) if len == payload.len()
+                ) {
+                    error!("Sigma3 has trailing data after its TLV structure");
+                    return Ok(SCStatusCodes::InvalidParameter);
+                }
                 let encrypted = match req.structure().and_then(|s| s.ctx(1)).and_then(|c| c.str()) {
                     Ok(s) => s,
                     Err(e) => {
